@@ -247,7 +247,7 @@ def decode_inputs():
     raw = st.binary(max_size=48).map(lambda b: ("random", b))
     tagged = st.tuples(st.sampled_from(sorted(CONTAINER_TAGS | {0x18, 0x1b})), st.binary(max_size=24)).map(
         lambda t: ("tagged", bytes([t[0]]) + t[1]))
-    valid = vals.immutables(big=False, surrogates=False, max_leaves=8).map(lambda s: refcodec.dump(vals.build(s)))
+    valid = vals.immutables(big=False, surrogates=True, max_leaves=8).map(lambda s: refcodec.dump(vals.build(s)))
     mut = st.tuples(valid, st.lists(st.tuples(st.integers(0, 6), st.integers(0, 4095), st.integers(0, 255)),
                                     min_size=0, max_size=4)).map(
         lambda t: ("mutated" if t[1] else "valid", _mutate(t[0], t[1])))
